@@ -2,7 +2,7 @@
    tangents are unit vectors orthogonal to the normal.  Statements only; proofs are in
    Proofs/Normals.v (any commutative ring) and Proofs/NormalsR.v (real numbers). *)
 From Coq Require Import List ZArith Ring.
-From PC Require Import Model.Normals Gen.NormalsAcc Proofs.Normals Proofs.NormalsR.
+From PC Require Import Model.Normals Gen.NormalsAcc Gen.Tangents Proofs.Normals Proofs.NormalsR Proofs.Tangents.
 Import ListNotations.
 
 Section AnyRing.
@@ -57,6 +57,35 @@ Section AnyRing.
            (vscale o (rsub o (snd w1) (snd w0)) (vsub o p2 p0)).
   Proof. exact (sdir_lengyel o Rth). Qed.
 
+  (* the same two facts for the code as it is written today: Gen/Tangents.v is regenerated from
+     generateTexTangentsAndBinormals on every run (scalar expressions of sdir, and through which
+     index rows the corner's normal and accumulated tangent are gathered) *)
+  Theorem C18_code_sdir_is_lengyel : forall (rinv : car o -> car o) (p0 p1 p2 : vec o) (w0 w1 w2 : uv o),
+    let d := uv_det o w0 w1 w2 in
+    rmul o (rinv d) d = rI o ->
+    vscale o d (code_sdir o rinv p0 p1 p2 w0 w1 w2) =
+    vsub o (vscale o (rsub o (snd w2) (snd w0)) (vsub o p1 p0))
+           (vscale o (rsub o (snd w1) (snd w0)) (vsub o p2 p0)).
+  Proof. exact (code_sdir_lengyel o Rth). Qed.
+
+  (* per corner c of triangle (t = vertex index row, n = NORMAL index row): what normalize_v3
+     receives is the projection of the tangent accumulated at the corner's VERTEX off the normal
+     selected by the corner's NORMAL index, hence orthogonal to that normal when it is a unit vector *)
+  Theorem C18_code_corner_tangent : forall (k : car o) (normals tans1 : list (vec o)) (t n : tri) (c : nat),
+    code_corner_tangent o normals tans1 t n c =
+      project o (vnth o normals (corner n c)) (vnth o tans1 (corner t c)) /\
+    (dot o (vnth o normals (corner n c)) (vnth o normals (corner n c)) = rI o ->
+     dot o (vnth o normals (corner n c)) (vscale o k (code_corner_tangent o normals tans1 t n c)) = rO o).
+  Proof.
+    intros. split; [apply code_corner_tangent_is_project|apply (code_corner_tangent_orthogonal o Rth)].
+  Qed.
+
+  (* the generated function is the hand-written model (which the correspondence runs) *)
+  Theorem C18_code_tangents_are_model : forall (rinv : car o -> car o) verts uvs normals tris uvtris ntris,
+    code_gen_tangents_raw o rinv verts uvs normals tris uvtris ntris =
+    gen_tangents_raw o (code_accumulate o) rinv verts uvs normals tris uvtris ntris.
+  Proof. exact (code_gen_tangents_raw_is_model o). Qed.
+
   (* why the former `norms[idx] += n` went unnoticed: without a repeated index in the column the
      fancy-indexed += and numpy.add.at agree *)
   Theorem C18_fancy_iadd_agrees_without_repeats : forall a idx vs v,
@@ -69,6 +98,9 @@ Print Assumptions C18_vertex_sum.
 Print Assumptions C18_indexed_like_vertices.
 Print Assumptions C18_tangent_orthogonal.
 Print Assumptions C18_sdir_is_lengyel.
+Print Assumptions C18_code_sdir_is_lengyel.
+Print Assumptions C18_code_corner_tangent.
+Print Assumptions C18_code_tangents_are_model.
 Print Assumptions C18_fancy_iadd_agrees_without_repeats.
 
 (* ---------------------------------------------------------------- integers: witnesses *)
